@@ -406,6 +406,15 @@ def getattr_(it, base, attr, node, fr):
                 n.axis = 0
             return Seq([n, K(len(base.cols))] if base.ndim == 2 else [K(len(base.cols))], "tuple")
         if attr == "T":
+            if base.ndim == 2 and not base.single_row:
+                k_ = float(len(base.cols))
+                for g_ in it.guards:
+                    hit = [n_ for n_ in tm.walk(g_) if n_.op == "eq" and any(tm.has_call(x_, "nrows") for x_ in n_.args)
+                           and any(tm.cval(x_) == k_ for x_ in n_.args)]
+                    if hit:
+                        # a batch of rows (n, k) is re-read as (k, n) when its row count happens to equal k: for n == k the two
+                        # layouts cannot be told apart, so a regular batch of exactly k rows is transposed
+                        it.record("typing", "ambiguous-transpose", [base], {}, node, {"width": int(k_)})
             return Unk(call("transposed", to_term(base)), space=base.space)
         if attr == "ndim":
             return K(base.ndim)
